@@ -610,6 +610,21 @@ def b_round(eng, v, nd=None):
 
 
 @stub
+def b_filter(eng, fn, seq):
+    out = []
+    for x in iterate(eng, seq):
+        if eng.truth(x if fn is None else eng.call(fn, [x], {})):
+            out.append(x)
+    return VList(out)
+
+
+@stub
+def b_map(eng, fn, *seqs):
+    ls = [iterate(eng, s) for s in seqs]
+    return VList([eng.call(fn, list(t), {}) for t in zip(*ls)])
+
+
+@stub
 def b_open_unsupported(eng, *a, **k):
     raise Unsupported("open() without an environment contract")
 
@@ -621,6 +636,7 @@ def make_builtins():
              any=b_any, all=b_all, min=b_min, max=b_max, abs=b_abs, repr=b_repr,
              hasattr=b_hasattr, getattr=b_getattr, setattr=b_setattr, id=b_id, print=b_print,
              type=b_type, callable=b_callable, iter=b_iter, round=b_round, open=b_open_unsupported,
+             filter=b_filter, map=b_map,
              True_=True, NotImplemented=NotImplemented)
     for n, c in EXC.items():
         b[n] = c
